@@ -182,8 +182,13 @@ func (w *walker) accessOf(e ast.Expr) (string, bool) {
 	if base == "s" && stateFields[sel.Sel.Name] {
 		return "s." + sel.Sel.Name, true
 	}
-	if pageFields[sel.Sel.Name] && (w.pageVars[base] || base == "s.h.Current()") {
+	if pageFields[sel.Sel.Name] && w.pageVars[base] {
+		/* through a local variable holding one particular page */
 		return "page." + sel.Sel.Name, true
+	}
+	if pageFields[sel.Sel.Name] && base == "s.h.Current()" {
+		/* whatever page is current at that moment */
+		return "cur." + sel.Sel.Name, true
 	}
 	return "", false
 }
